@@ -78,6 +78,17 @@ def blocksDeclared (t : SymTable) : List BlockMsg → Bool
   | [] => true
   | m :: ms => let t' := extendTable t m.symbols; blockDeclared t' m && blocksDeclared t' ms
 
+/-- What `New` (over table `tbl`) and `Append` (to a token whose table is `tbl`) answer for a
+block (biscuit.go `newBiscuit`, `Append`): `IsDisjoint` first — the block may not declare a
+string the table already holds —, then the declared-symbols rule over the extended table. -/
+inductive GateAnswer where
+  | ok | overlap | undeclared
+  deriving DecidableEq, Repr
+
+def gateAnswer (tbl : SymTable) (m : BlockMsg) : GateAnswer :=
+  if m.symbols.any (fun s => tbl.contains s) then .overlap
+  else if blocksDeclared tbl [m] then .ok else .undeclared
+
 structure Parsed where
   envelope : BiscuitMsg
   blocks : List BlockMsg       -- authority first
